@@ -288,3 +288,60 @@ async def concurrent_takes(rng, n_msgs: int, n_cons: int, max_unacked) -> dict:
             cons.consume_task.cancel()
     await w.settle()
     return {"handed": handed, "n": n_msgs, "consumers": n_cons, "log_len": len(w.srv.log)}
+
+
+# ---------------- shutdown of a Redis consumer at every loop iteration of its background task ----------------
+def finish_cuts(ctx, res) -> None:
+    """C03 on the Redis client: `finish()` is called k loop iterations after the consumer was started, for every k of the
+    window in which its background task takes messages: afterwards every message must be in exactly one place and none
+    may stay marked as being processed (the consumer has handed nothing out: everything it took goes back)."""
+    import repid.connections.redis.utils as ru
+    from ..world import key
+    from ..pyparams import mk_params
+    from ..clock import CLOCK
+    scenarios = [
+        {"name": "plain", "n": 3, "expired": (), "max": 5},
+        {"name": "expired_first", "n": 4, "expired": (1, 3), "max": 5},
+        {"name": "buffer_of_one", "n": 3, "expired": (), "max": 1},
+        {"name": "buffer_of_one_expired", "n": 4, "expired": (2,), "max": 1},
+    ]
+    ks = range(0, ctx.scale(70, 160))
+    orig = ru.random.random
+    ru.random.random = lambda: 0.8          # MEDIUM priority first: the list the messages are in
+    problems = []
+
+    async def main(loop):
+        loop.set_exception_handler(lambda l, c: None)
+        for sc in scenarios:
+            for k in ks:
+                w = redisrun.RedisWorld([1])
+                now = CLOCK.now_us()
+                for i in range(1, sc["n"] + 1):
+                    exp = i in sc["expired"]
+                    await w.mb.enqueue(key(f"m{i}", "t1", "q1", 5), f"p{i}",
+                                       mk_params(ts=now - (2 * S if exp else 0), ttl=(1000 if exp else None)))
+                await w.add_consumer(1, 1, 0, None, sc["max"])
+                for _ in range(k):
+                    await asyncio.sleep(0)
+                await w.consumers[1].finish()
+                for _ in range(60):
+                    await asyncio.sleep(0)
+                pl = w.places()
+                res.count("redis_finish_cut_runs")
+                bad = {i: [x[0] for x in pl.get(i, [])] for i in range(1, sc["n"] + 1)
+                       if len(pl.get(i, [])) != 1 or pl[i][0][0] == "processing"}
+                res.add_case(f"redis_finish_cut:{sc['name']}:{k}:{sorted((i, tuple(x[0] for x in p)) for i, p in pl.items())}",
+                             any(p and p[0][0] in ("dead",) for p in pl.values()) or k > 5)
+                if bad:
+                    problems.append((sc, k, bad))
+    try:
+        run_virtual(main)
+    finally:
+        ru.random.random = orig
+    if problems:
+        sc, k, bad = problems[0]
+        stuck = {i: p for i, p in bad.items() if "processing" in p}
+        kind = "redis_finish_leaves_message_in_flight" if stuck else "redis_finish_loses_or_duplicates"
+        res.failures.append(Failure(kind, f"scenario {sc['name']}: finish() {k} loop iterations after start() leaves {bad} "
+                                    f"(every message must be in exactly one place, none marked as processing: the consumer handed nothing out); "
+                                    f"{len(problems)} of the cut points fail", {"redis_finish_cut": {"scenario": sc, "k": k}}, None))
